@@ -53,6 +53,7 @@ pub fn run(ctx: &mut Ctx) {
         for t in &p.tags {
             ctx.count(&format!("tag:{t}"));
         }
+        bound_queries(ctx, k, &mut r, &p, &model);
         match run_engine(&p, &RunOpts::default()) {
             Err(e) => {
                 ctx.count("engine_rejected");
@@ -86,6 +87,71 @@ pub fn run(ctx: &mut Ctx) {
                     );
                 }
             }
+        }
+    }
+}
+
+/// The text the protocol handler builds for `?h(k, V1, ..)`: a `__query__` rule whose constant
+/// arguments are bound through equalities (this form — and only this one — triggers the engine's
+/// demand-driven rewriting of recursive relations).
+fn bound_query_text(front: &[refdl::Clause], h: &str, ar: usize, bound: &[(usize, i64)]) -> String {
+    let args: Vec<String> = (0..ar).map(|i| if bound.iter().any(|(p, _)| *p == i) { format!("_c{i}") } else { format!("V{i}") }).collect();
+    let eqs: Vec<String> = bound.iter().map(|(p, c)| format!("_c{p} = {c}")).collect();
+    format!("{}\n__query__({}) <- {h}({}), {}", refdl::program_text(front), args.join(", "), args.join(", "), eqs.join(", "))
+}
+
+fn bound_outcome(c: &GenProgram, h: &str, bound: &[(usize, i64)]) -> Option<(refdl::Rel, refdl::Rel)> {
+    let front: Vec<refdl::Clause> = c.clauses.iter().filter(|x| x.head != "q").cloned().collect();
+    let ar = front.iter().find(|x| x.head == h)?.hargs.len();
+    if bound.iter().any(|(p, _)| *p >= ar) {
+        return None;
+    }
+    let m = refdl::evaluate(&front, &c.edb, false).ok()?;
+    let want: refdl::Rel = m.db.get(h).cloned().unwrap_or_default().into_iter().filter(|t| bound.iter().all(|(p, k)| t[*p] == refdl::V::I(*k))).collect();
+    let got = run_text(&bound_query_text(&front, h, ar, bound), &c.edb, &RunOpts::default()).ok()?.set();
+    Some((got, want))
+}
+
+/// Bound queries in the handler's form on the derived relations of recursive programs, against
+/// the same reference model.
+fn bound_queries(ctx: &mut Ctx, k: u64, r: &mut crate::rng::Rng, p: &GenProgram, _model: &refdl::Model) {
+    if !p.tags.iter().any(|t| ["rec_self", "rec_mutual"].contains(t)) {
+        return;
+    }
+    let mut idb: Vec<(String, usize)> = Vec::new();
+    for c in p.clauses.iter().filter(|c| c.head != "q" && !c.has_agg()) {
+        if !idb.iter().any(|(h, _)| h == &c.head) {
+            idb.push((c.head.clone(), c.hargs.len()));
+        }
+    }
+    for (h, ar) in idb.iter().take(2) {
+        let mut bound: Vec<(usize, i64)> = vec![(r.below(*ar), r.range(0, 4))];
+        if *ar > 1 && r.chance(1, 4) {
+            let p2 = r.below(*ar);
+            if p2 != bound[0].0 {
+                bound.push((p2, r.range(0, 4)));
+            }
+        }
+        let Some((got, want)) = bound_outcome(p, h, &bound) else {
+            ctx.count("bound_query_rejected");
+            continue;
+        };
+        ctx.eval();
+        ctx.count("bound_queries");
+        if !want.is_empty() {
+            ctx.count("bound_queries_nonempty");
+        }
+        if got != want {
+            let small = shrink(p, |c| matches!(bound_outcome(c, h, &bound), Some((g, w)) if g != w), 300);
+            let (g, w) = bound_outcome(&small, h, &bound).unwrap_or((got.clone(), want.clone()));
+            let mut f: Vec<&str> = features(&small).into_iter().filter(|x| ["mutual-recursion", "self-recursion", "negation"].contains(x)).collect();
+            f.sort();
+            ctx.violation(
+                k,
+                &format!("C01:bound-query:{}:{}", f.join("+"), diff_kind(&g, &w)),
+                format!("`?{h}(..)` with bound arguments {bound:?} differs from the stratified least model ({})", diff_kind(&g, &w)),
+                json!({"minimised": small.to_json(), "relation": h, "bound": format!("{bound:?}"), "engine": rel_json(&g), "reference": rel_json(&w), "original": p.to_json()}),
+            );
         }
     }
 }
